@@ -177,7 +177,7 @@ func VH_C19_object_tree() {
 	vAssert("C19.obj.close", db.Close() == nil)
 	dir := root + "/sod.vObj"
 	file := dir + "/" + o.UUID() + ".json"
-	dmg := vChoice("damage", 6)
+	dmg := vChoice("damage", 9)
 	switch dmg {
 	case 0:
 		k := vLen("mutation", 0, vBound("MUTO", 60))
@@ -198,6 +198,15 @@ func VH_C19_object_tree() {
 	case 5: // sub-directories, one of them named like an object
 		vMkdir(dir + "/subdir")
 		vMkdir(dir + "/cccccccc-cccc-4ccc-8ccc-cccccccccccc.json")
+	case 6: // the object file is a directory
+		vRemoveFile(file)
+		vMkdir(file)
+	case 7: // schema.json is a directory
+		vRemoveFile(dir + "/schema.json")
+		vMkdir(dir + "/schema.json")
+	case 8: // a uuid-shaped name with another extension, and a second file for the same uuid
+		vCopyFile(file, dir+"/dddddddd-dddd-4ddd-8ddd-dddddddddddd.bin")
+		vCopyFile(file, dir+"/"+o.UUID()+".json.bak")
 	}
 	if dmg == 1 || dmg == 2 {
 		// the only object is unreadable: a search that has to read it cannot be
